@@ -707,7 +707,21 @@ pub struct KeccakCase {
 
 /// States (found by an offline search with `oracle::keccak_ref`) whose hash chain contains a
 /// 64-bit word >= p among the first twelve words, i.e. that exercise the rejection branch.
-const KECCAK_REJECTION_STATES: &[[u64; 12]] = &[];
+#[rustfmt::skip]
+const KECCAK_REJECTION_STATES: &[[u64; 12]] = &[
+    [0x9000000c55da1, 0x9e3779b97f4a7c15, 0x3c6ef372fe94f82a, 0xdaa66d2c7ddf743f, 0x78dde6e5fd29f054, 0x1715609f7c746c69,
+     0xb54cda58fbbee87e, 0x538454127b096493, 0xf1bbcdcbfa53e0a8, 0x8ff34785799e5cbd, 0x2e2ac13ef8e8d8d2, 0xcc623af8783354e7],
+    [0x5000002735650, 0x9e3779b97f4a7c15, 0x3c6ef372fe94f82a, 0xdaa66d2c7ddf743f, 0x78dde6e5fd29f054, 0x1715609f7c746c69,
+     0xb54cda58fbbee87e, 0x538454127b096493, 0xf1bbcdcbfa53e0a8, 0x8ff34785799e5cbd, 0x2e2ac13ef8e8d8d2, 0xcc623af8783354e7],
+    [0x80000024fe5d2, 0x9e3779b97f4a7c15, 0x3c6ef372fe94f82a, 0xdaa66d2c7ddf743f, 0x78dde6e5fd29f054, 0x1715609f7c746c69,
+     0xb54cda58fbbee87e, 0x538454127b096493, 0xf1bbcdcbfa53e0a8, 0x8ff34785799e5cbd, 0x2e2ac13ef8e8d8d2, 0xcc623af8783354e7],
+    [0x1000003a552f5, 0x9e3779b97f4a7c15, 0x3c6ef372fe94f82a, 0xdaa66d2c7ddf743f, 0x78dde6e5fd29f054, 0x1715609f7c746c69,
+     0xb54cda58fbbee87e, 0x538454127b096493, 0xf1bbcdcbfa53e0a8, 0x8ff34785799e5cbd, 0x2e2ac13ef8e8d8d2, 0xcc623af8783354e7],
+    [0x20000038a52f6, 0x9e3779b97f4a7c15, 0x3c6ef372fe94f82a, 0xdaa66d2c7ddf743f, 0x78dde6e5fd29f054, 0x1715609f7c746c69,
+     0xb54cda58fbbee87e, 0x538454127b096493, 0xf1bbcdcbfa53e0a8, 0x8ff34785799e5cbd, 0x2e2ac13ef8e8d8d2, 0xcc623af8783354e7],
+    [0x8000004dfd570, 0x9e3779b97f4a7c15, 0x3c6ef372fe94f82a, 0xdaa66d2c7ddf743f, 0x78dde6e5fd29f054, 0x1715609f7c746c69,
+     0xb54cda58fbbee87e, 0x538454127b096493, 0xf1bbcdcbfa53e0a8, 0x8ff34785799e5cbd, 0x2e2ac13ef8e8d8d2, 0xcc623af8783354e7],
+];
 
 fn keccak_state() -> BoxedStrategy<[u64; 12]> {
     if KECCAK_REJECTION_STATES.is_empty() {
@@ -814,16 +828,16 @@ pub fn run(ctx: &mut Ctx) {
         );
     }
 
-    let n = ctx.tier.pick(300_000, 40_000_000);
+    let n = ctx.tier.pick(1_200_000, 60_000_000);
     ctx.run_sub("poseidon_permute", n, 16, perm_strategy, perm_prop);
-    let n = ctx.tier.pick(60_000, 6_000_000);
+    let n = ctx.tier.pick(250_000, 10_000_000);
     ctx.run_sub("poseidon_layers", n, 16, layer_strategy, layer_prop);
-    let n = ctx.tier.pick(30_000, 3_000_000);
+    let n = ctx.tier.pick(120_000, 5_000_000);
     ctx.run_sub("sponge", n, 16, sponge_strategy, sponge_prop);
-    let n = ctx.tier.pick(6_000, 600_000);
+    let n = ctx.tier.pick(25_000, 1_000_000);
     ctx.run_sub("challenger_model", n, 16, chal_strategy, chal_prop);
-    let n = ctx.tier.pick(4_000, 400_000);
+    let n = ctx.tier.pick(16_000, 600_000);
     ctx.run_sub("challenger_rechunk", n, 16, rechunk_strategy, rechunk_prop);
-    let n = ctx.tier.pick(30_000, 3_000_000);
+    let n = ctx.tier.pick(120_000, 5_000_000);
     ctx.run_sub("keccak", n, 16, keccak_strategy, keccak_prop);
 }
